@@ -2,11 +2,11 @@ package main
 
 import (
 	"bytes"
-	"time"
 	"fmt"
 	"math"
 	"strconv"
 	"strings"
+	"time"
 
 	simdjson "github.com/minio/simdjson-go"
 
@@ -179,6 +179,22 @@ func c10Body(w *W) {
 	for e := -323; e <= 308; e++ {
 		f, _ := strconv.ParseFloat("1e"+strconv.Itoa(e), 64)
 		fvals = append(fvals, f, math.Nextafter(f, 0), math.Nextafter(f, math.Inf(1)), -f)
+	}
+	// decimals of every digit count 1..17 (the marshaller's digit-generation branches differ by length)
+	for L := 1; L <= 17; L++ {
+		lo := 1.0
+		for i := 1; i < L; i++ {
+			lo *= 10
+		}
+		for i := 0; i < 40; i++ {
+			m := lo + float64(i)*lo*9/40 + float64(i*7)
+			for _, e := range []int{-9, -3, 0, 4, 12} {
+				f, err := strconv.ParseFloat(strconv.FormatFloat(m, 'f', 0, 64)+"e"+strconv.Itoa(e-L+1), 64)
+				if err == nil {
+					fvals = append(fvals, f)
+				}
+			}
+		}
 	}
 	for i := 0; i < len(fvals); i += 16 {
 		w.res.States++
